@@ -33,8 +33,8 @@ TEXT = {
    note='mpsc_fifo_push/trypop by the C15 contracts; single consumer = the elected worker; SC; counters below 2^58.',
    technique='CBMC function+loop contracts (DFCC) on woven real code, rely/guarantee ghost counters, SAT lemmas', ref='5 C17'),
  'C16': dict(
-   text='Rely/guarantee refinement proof on the real lockfree_ring_buffer_trypush/trypop (woven header inlines) against the four-action system CLAIM_W/WRITE/CLAIM_R/CLEAR over one symbolic observed absolute index (any index, any of 2^62 values, index & mask wrap included): adversarial interference (any high/low/slot contents satisfying the invariant and what this operation has read) before every access; read hooks record facts (value of low/high/slot seen), the step monitor checks each CAS against them (claim only from the value read, slot seen empty with room left / slot seen full below a high value read earlier), that a write lands only on the claimed slot, never on an occupied slot, never wipes another index; failure only for a stated reason (slot busy, looked full/empty, CAS lost) and without effect; popped value = the value pushed for that index.',
-   note='Capacity symbolic in 2^1..2^4 (quick) / 2^1..2^6 (thorough) over a fixed backing store (larger capacities not covered: CBMC array post-processing); knowledge-stability of the read facts under interference is an assumed rely (lemma layer pending); SC; indices below 2^62; blocking wrappers not separately proved.',
+   text='Rely/guarantee refinement proof on the real lockfree_ring_buffer_trypush/trypop (woven header inlines) against the four-action system CLAIM_W/WRITE/CLAIM_R/CLEAR over one symbolic observed absolute index (any index, any of 2^62 values, index & mask wrap included): adversarial interference (any high/low/slot contents satisfying the invariant and what this operation has read) before every access; read hooks record facts (value of low/high/slot seen), the step monitor checks each CAS against them (claim only from the value read, slot seen empty with room left / slot seen full below a high value read earlier), that a write lands only on the claimed slot, never on an occupied slot, never wipes another index; failure only for a stated reason (slot busy, looked full/empty, CAS lost) and without effect; popped value = the value pushed for that index. Capacity-independent lemma layer (size = 2^p, p <= 31): every step of another operation, reads included, preserves the observed-index invariant, establishes/keeps its own knowledge and never invalidates mine (so the rely assumed in the refinement is exactly what verified code can do); a write never lands on an occupied cell; never more than size items; popped value is the pushed one.',
+   note='Refinement groups are bounded in capacity (labelled bounded, not counted as proved): capacity symbolic in 2^1..2^4 (quick) / 2^1..2^6 (thorough) over a fixed backing store (larger capacities not covered: CBMC array post-processing); SC; indices below 2^62; blocking wrappers not separately proved.',
    technique='CBMC harness-mode contract proof on woven real code, rely/guarantee with symbolic observer index and read hooks', ref='5 C16, Appendix A.4'),
 }
 NOT_YET = 'check not built yet at this commit (DESIGN.md section 5 describes the planned contracts)'
